@@ -742,9 +742,11 @@ def _provenance(ctx):
                 ldefs = [st for st in statements(f) if isinstance(st, ast.Assign) and any(isinstance(t, ast.Name) and t.id == lname for t in st.targets)]
                 others = [x for x in ast.walk(f) if isinstance(x, ast.Name) and x.id == lname and isinstance(x.ctx, ast.Load) and x is not a0.value
                           and not (isinstance(x._parent, ast.Attribute) and x._parent.attr == "append" and isinstance(x._parent._parent, ast.Call))]
-                if len(ldefs) == 1 and isinstance(ldefs[0].value, (ast.List, ast.Tuple)) and ldefs[0].value.elts and not others \
-                        and not any(isinstance(e, ast.Starred) for e in ldefs[0].value.elts):
-                    a0 = ldefs[0].value.elts[0]
+                if ldefs and all(isinstance(d_.value, (ast.List, ast.Tuple)) and d_.value.elts and not any(isinstance(e, ast.Starred) for e in d_.value.elts)
+                                 for d_ in ldefs) and not others:
+                    # every definition of the list puts the data first: judge each of them (the first that is not the plain parameter decides)
+                    firsts = [d_.value.elts[0] for d_ in ldefs]
+                    a0 = next((e for e in firsts if not (isinstance(e, ast.Name) and e.id == dp)), firsts[0])
                 else:
                     ctx.note(f"input/binary-formats-unmodified: argument list {lname} of the parser call not recognised; clause left to roundtrip/ (bounded)")
                     continue
@@ -839,6 +841,8 @@ MUTANTS = [
            expect_rule="roundtrip/"),
     Mutant("getNS-named-offsets-skip-a-byte", CM, "        ns.append(s[c + 4 : 4 + l + c])\n        c += 4 + l\n", "        start = c + 4\n        end = start + l\n        ns.append(s[start:end])\n        c = end + 1\n",
            expect_rule="s/primitive/offsets"),
+    Mutant("parser-arguments-collected-in-a-list-stripped", KY, '            return method(data)\n        else:\n            return method(data, passphrase)\n',
+           '            arguments = [data.strip()]\n        else:\n            arguments = [data.strip(), passphrase]\n        return method(*arguments)\n', expect_rule="input/binary-formats-unmodified"),
 ]
 SILENT = [
     Silent("ec-point-to_bytes-fixed-width", KY, "                    + utils.int_to_bytes(data[\"x\"], byteLength)\n                    + utils.int_to_bytes(data[\"y\"], byteLength)\n",
@@ -855,4 +859,6 @@ SILENT = [
     Silent("ed25519-seed-width-named", KY, "            k = combined[:32]\n", "            seedLength = 32\n            k = combined[:seedLength]\n"),
     Silent("ed25519-strings-cut-positionally", KY, "            a, combined, rest = common.getNS(rest, 2)\n            k = combined[:32]\n", "            a, combined = common.getNS(rest, 2)[:2]\n            k = combined[0:32]\n"),
     Silent("getNS-named-offsets", CM, "        ns.append(s[c + 4 : 4 + l + c])\n        c += 4 + l\n", "        start = c + 4\n        end = start + l\n        ns.append(s[start:end])\n        c = end\n"),
+    Silent("parser-arguments-collected-in-a-list", KY, '            return method(data)\n        else:\n            return method(data, passphrase)\n',
+           '            arguments = [data]\n        else:\n            arguments = [data, passphrase]\n        return method(*arguments)\n'),
 ]
